@@ -236,7 +236,7 @@ def hunts(quick, focus, timeout):
             out.append(cfg)
     if 'GP' in opts:
         # ABS (in-place candidates) in the function set, boxes with negative values, several trees, several iterations
-        n_gp = (120 if len(opts) == 1 else 6) if quick else (600 if len(opts) == 1 else 60)
+        n_gp = (120 if len(opts) == 1 else 24) if quick else (600 if len(opts) == 1 else 90)
         for i in range(n_gp):
             c = {'objective': OBJECTIVES[i % len(OBJECTIVES)], 'ret': ['pyfloat', 'npscalar'][i % 2], 'box': ['sym10', 'asym'][i % 2],
                  'agents': [5, 20, 7][i % 3], 'n_variables': [1, 2, 5][(i // 2) % 3], 'n_dimensions': 1, 'n_iterations': [3, 10][(i // 3) % 2],
@@ -264,6 +264,40 @@ def hunts(quick, focus, timeout):
             if any(p['optimizer'] == 'WCA' for p in cfg['prelude']) and cfg['n_agents'] < 2:
                 cfg['n_agents'] = 2
             cfg['n_agents'] = max([cfg['n_agents']] + [WR[p['optimizer']]['min_agents'] for p in cfg['prelude']])
+            cfg['repro'] = False
+            out.append(cfg)
+    # self-adapting hyperparameters over many iteration counts: a schedule that leaves its setter's guard by one rounding
+    # error raises in the middle of run() (C03) for particular (setting, n_iterations) pairs only.  Grid: one hyperparameter
+    # away from its default (decimal grid points of its working range) x n_iterations 1..64; sampled unless focused.
+    for o in opts:
+        if not WR[o]['adaptive']:
+            continue
+        grid = [({}, n) for n in range(1, 65)]
+        for k in sorted(WR[o]['hyper']):
+            d = WR[o]['hyper'][k]
+            if d.get('int'):
+                vals = sorted({int(d['lo']), int(d['hi'])})
+            else:
+                vals = sorted({round(x / 10.0, 1) for x in range(0, 11) if d['lo'] <= x / 10.0 <= d['hi']} | {d['lo'], d['hi']})[:8]
+            for v in vals:
+                if v == d.get('default'):
+                    continue
+                for n in range(1, 65):
+                    grid.append(({k: v}, n))
+        n_ad = len(grid) if len(opts) <= 3 else (24 if quick else 400)
+        if n_ad < len(grid):
+            grid = rnd.sample(grid, n_ad)
+        for i, (delta, n) in enumerate(grid):
+            c = {'objective': ['sphere', 'shifted', 'negative'][i % 3], 'ret': 'pyfloat', 'box': ['sym10', 'unit'][i % 2], 'agents': 2,
+                 'n_variables': 1, 'n_dimensions': 1, 'n_iterations': n, 'draws': 'seeded', 'hp': 'default',
+                 'store_best_only': True, 'hook': 'observe'}
+            cfg = make(o, 'search', c, 9200 + i, min(timeout, 3.0))
+            hp = dict(cfg['hyperparams'])
+            hp.update(delta)
+            if o == 'WCA':
+                hp['nsr'] = max(1, min(int(hp.get('nsr', 2)), cfg['n_agents']))
+            cfg['hyperparams'] = hp
+            cfg['hp_mode'] = 'sweep'
             cfg['repro'] = False
             out.append(cfg)
     if 'RPSO' in opts:
